@@ -90,7 +90,15 @@ def corpus_prefixes(rng, nfiles, every_line=True):
         for _ in range(3):
             k = rng.randrange(1, max(2, len(text)))
             out.append(("corpus:%s:@%d" % (f, k), text[:k]))
+        # the file ends INSIDE a construct: right behind an opening delimiter of a literal, bracket, block or comment
+        opens = [m.end() for m in _OPENERS.finditer(text)]
+        for k in rng.sample(opens, min(len(opens), 10)):
+            out.append(("corpus:%s:open@%d" % (f, k), text[:k]))
+            out.append(("corpus:%s:open@%d+" % (f, k), text[:k + 3].split("\n")[0] if "\n" in text[k:k + 3] else text[:k + 3]))
     return out
+
+
+_OPENERS = re.compile(r":\"|:'|%[wiqQWI]?[\[({<]|\"|'|`|#\{|#|\(|\[|\{|\||<<[~-]?[A-Z_]+|\?|&\.|\.|::|=>|->|\bdo\b|\bthen\b")
 
 
 # ------------------------------------------------------------------------- oracles
